@@ -1271,11 +1271,16 @@ class Compiler:
     def visit_Target(self, node):
         backup = "__previous_i18n_target_%s" % mangle(id(node))
         tmp = "__tmp_%s" % mangle(id(node))
+        # Expressions (attribute translations, inserted message
+        # objects) read the target language from the variable scope.
+        publish = "econtext['target_language'] = target_language"
         return template("BACKUP = target_language", BACKUP=backup) + \
             self._engine(node.expression, store(tmp)) + \
             [ast.Assign([store("target_language")], load(tmp))] + \
+            template(publish) + \
             self.visit(node.node) + \
-            template("target_language = BACKUP", BACKUP=backup)
+            template("target_language = BACKUP", BACKUP=backup) + \
+            template(publish)
 
     def visit_TxContext(self, node):
         backup = "__previous_i18n_context_%s" % mangle(id(node))
